@@ -167,6 +167,11 @@ class Plan:
                 out.append(f'{vis}fn {name}() -> &\'static str {{ "{tag}" }}')
             elif kind == "method":
                 out.append(f'{vis}fn {name}(&self) -> &\'static str {{ "{tag}" }}')
+            elif kind == "pfn":
+                fi = self.blocks()[bi][0]
+                n = self.families[fi].nparams
+                args = ", ".join(f"_a{i}: Option<&{m.names[i]}>" for i in range(n))
+                out.append(f'{vis}fn {name}({args}) -> &\'static str {{ "{tag}" }}')
         return out
 
     def trait_text(self):
@@ -213,6 +218,8 @@ class Plan:
             out.append(f"pub struct {l};")
         out.append("pub struct W1<T: ?Sized>(PhantomData<T>); pub struct W2<T: ?Sized, U: ?Sized>(PhantomData<T>, PhantomData<U>);")
         out.append("pub trait Plain0 {} pub trait Plain1 {}")
+        if self.inherent_ty:
+            out.append(self.inherent_ty)
         for bi in range(len(self.blocks())):
             out.append(f"pub struct Tag{bi};")
         for d in self.dtraits:
@@ -232,6 +239,8 @@ class Plan:
         return name + ("<" + ", ".join(targs) + ">" if targs else "")
 
     def macro_program(self):
+        if self.mode == "inherent":
+            return self.inherent_program()
         lines = [self.prelude(), "disjoint_impls::disjoint_impls! { " + self.invocation_text() + " }", "fn main() {"]
         for pi, (ty, targs) in enumerate(self.probes):
             tr = self.trait_ref(targs)
@@ -244,6 +253,29 @@ class Plan:
                 elif kind == "type":
                     lines.append(f'  print!(" {{}}", item_type!({ty}, {tr}, {name}));')
             lines.append('  println!();')
+        lines.append("}")
+        return "\n".join(lines)
+
+    def inherent_program(self, outside=False):
+        """items are read through the type itself (no trait import); only probes known to match some block are
+        referenced (`probe_pos`, filled in from the shadow program's answer)"""
+        inv = "disjoint_impls::disjoint_impls! { " + self.invocation_text() + " }"
+        lines = [self.prelude(), inv, "fn main() {"]
+        pos = self.notes.get("probe_pos") or [True] * len(self.probes)
+        for pi, (ty, targs) in enumerate(self.probes):
+            if not pos[pi]:
+                lines.append(f'  println!("{pi} 0");')
+                continue
+            lines.append(f'  print!("{pi} 1");')
+            for kind, name, _ in self.items:
+                if kind == "const":
+                    lines.append(f'  print!(" {{}}", <{ty}>::{name});')
+                elif kind == "fn":
+                    lines.append(f'  print!(" {{}}", <{ty}>::{name}());')
+                elif kind == "pfn":
+                    n = max(f.nparams for f in self.families)
+                    lines.append(f'  print!(" {{}}", <{ty}>::{name}({", ".join(["None"] * self.notes.get("pfn_arity", n))}));')
+            lines.append("  println!();")
         lines.append("}")
         return "\n".join(lines)
 
@@ -298,7 +330,7 @@ def parse_table(stdout):
     for line in stdout.splitlines():
         parts = line.split()
         if parts and parts[0].isdigit():
-            out[int(parts[0])] = parts[1:]
+            out[int(parts[0])] = [x.rsplit("::", 1)[-1] for x in parts[1:]]
     return out
 
 
@@ -665,6 +697,82 @@ class PlanGen:
         for ki, k in enumerate(f.keys):
             if k.bounded[0] == "tp" and k.bounded[1] in binding and a.row[ki] is not None and not params_of(a.row[ki]):
                 self.add_world(plan, k.dt, [pr(x) for x in k.dargs], binding[k.bounded[1]], k.assoc, pr(a.row[ki]))
+
+    # ------------------------------------------------------------------ inherent mode (C17, C06)
+    def inherent(self):
+        r = self.r
+        plan = Plan()
+        plan.mode = "inherent"
+        plan.dtraits = [DTrait("D0")] + ([DTrait("D1", assocs=("G", "H"))] if r.random() < 0.4 else [])
+        plan.items = [("const", "NAME", False)] + ([("fn", "tag", False)] if r.random() < 0.6 else [])
+        use_pfn = r.random() < 0.6
+        ntp = self.pick([1, 2, 2])
+        has_const = r.random() < 0.35
+        has_lt = r.random() < 0.3
+        decl = (["'a"] if has_lt else []) + [f"A{i}" for i in range(ntp)] + (["const N: usize"] if has_const else [])
+        fields = ", ".join((["&'a ()"] if has_lt else []) + [f"PhantomData<A{i}>" for i in range(ntp)])
+        plan.inherent_ty = f"pub struct Wr<{', '.join(decl)}>({fields});"
+        nfam = self.pick([1, 1, 2])
+        insts = []
+        for fi in range(nfam):
+            # instantiation of the type's parameters by the family header: params or concrete types / literals
+            args = []
+            nparams = 0
+            for i in range(ntp):
+                if fi == 0 or r.random() < 0.6 or nparams == 0 and i == ntp - 1:
+                    args.append(("aty", ("tp", nparams)))
+                    nparams += 1
+                else:
+                    args.append(("aty", leaf(self.pick(["u8", "u16"]))))
+            cargs = [("aconst", ("lit", str(1 + fi)))] if has_const else []
+            sig = repr((args, cargs))
+            if sig in insts or nparams == 0:
+                continue
+            # families must not overlap: differing const literal, or a concrete argument facing a different concrete one
+            if fi > 0 and not has_const:
+                # make the first family concrete at a position where this one is concrete with another type
+                continue
+            insts.append(sig)
+            self_ty = ("ctor", "Wr", ([("alt", "'a")] if has_lt else []) + args + cargs)
+            nkeys = self.pick([1, 1, 2])
+            keys, used = [], set()
+            for _ in range(nkeys):
+                p = r.randrange(nparams)
+                dt = r.randrange(len(plan.dtraits))
+                assoc = self.pick(plan.dtraits[dt].assocs)
+                if (p, dt, assoc) in used:
+                    continue
+                used.add((p, dt, assoc))
+                keys.append(Key(("tp", p), dt, [], assoc))
+            members, rows = [], []
+            tries = 0
+            while len(members) < self.pick([2, 2, 3]) and tries < 20:
+                tries += 1
+                row = [leaf(self.pick(MARKERS)) for _ in keys]
+                if any(_rows_unify(row, o) for o in rows):
+                    continue
+                rows.append(row)
+                m = Member({}, row, nparams)
+                m.names = self.names(nparams)
+                m.decl_order = list(range(nparams))
+                if r.random() < 0.5:
+                    r.shuffle(m.decl_order)
+                m.inline = {ki: r.random() < 0.6 for ki in range(len(keys))}
+                m.lifetimes = ["'a"] if has_lt else []
+                members.append(m)
+            vis = {name: self.pick(["", "pub ", "pub(crate) "]) for _, name, _ in plan.items}
+            for m in members:
+                m.vis = dict(vis)
+            plan.families.append(Family(self_ty, [], nparams, keys, members))
+        if use_pfn and len({f.nparams for f in plan.families}) == 1:
+            plan.items.append(("pfn", "pf", False))
+            plan.notes["pfn_arity"] = plan.families[0].nparams
+            for f in plan.families:
+                for m in f.members:
+                    m.vis["pf"] = f.members[0].vis.get("NAME", "")
+        self.populate(plan)
+        plan.probes = [(ty.replace("'a", "'static"), ta) for ty, ta in plan.probes]
+        return plan
 
     def default_targs(self, plan):
         return [pr(leaf("u8")) for g in plan.trait_generics if g[0] == "ty"]
